@@ -6,6 +6,19 @@ import os
 ROOT = os.path.dirname(os.path.dirname(os.path.abspath(__file__)))
 
 CLAIMED = {
+    "C17": dict(
+        category="model_checking",
+        technique="TLA+ file-system model (directories, files, symbolic links, dotted and absolute paths) with the "
+                  "reference resolution; TLC enumerates every argument vector over the skeleton's spellings and each is "
+                  "executed through compile_from_options in a materialised tree",
+        text="Files.tla resolves paths through a modelled tree (links, '.', '..', absolute) and defines Resolve(sources, "
+             "references): first occurrence per canonical file, sources before references, references that are sources "
+             "dropped, one DuplicateFile per repeat within a list, I/O error for missing / non-.slice / directory-as-"
+             "source / unreadable, nothing parsed on error. TLC checks CompiledOnce and SourceBeatsReference and prints "
+             "each vector (quick 9 282; thorough 280 k) with the required file groups; the harness compares canonical "
+             "identity, role and order of CompilationState.files, warning and error counts, parsed flags.",
+        note="Order inside a reference directory is not compared. Unreadable = not valid UTF-8 (root sandbox). No link loops.",
+        design_ref="5 (C17), 4 (Files)"),
     "C07": dict(
         category="model_checking",
         technique="TLA+ model of the driver (compiler + generator processes + bounded pipes; TLC invariants, deadlock "
